@@ -80,6 +80,12 @@ func (ex *Exec) resolveType(text string, pkg *types.Package) types.Type {
 		fmt.Sscanf(text[1:end], "%d", &n)
 		return types.NewArray(ex.resolveType(text[end+1:], pkg), n)
 	}
+	if text == "interface{}" || text == "any" {
+		return types.NewInterfaceType(nil, nil)
+	}
+	if text == "error" {
+		return types.Universe.Lookup("error").Type()
+	}
 	if text == "Ref" {
 		return types.Typ[types.UnsafePointer]
 	}
@@ -777,11 +783,23 @@ func (ev *SpecEnv) call(n *Node) Val {
 		}
 		return Val{T: smtNot(sx("alive0", t)), S: sortBool, Ty: tb}
 	case "alive":
+		// allocated at this point: before the entry of the current function, or on this path
 		x := ev.eval(n.Args[0])
-		return Val{T: sx("alive0", x.T), S: sortBool, Ty: tb}
+		alts := []string{sx("alive0", x.T)}
+		if ev.heap == nil || true {
+			for _, f := range ev.st.fresh {
+				alts = append(alts, sx("=", x.T, f))
+			}
+		}
+		return Val{T: smtOr(alts...), S: sortBool, Ty: tb}
 	case "typeof":
 		x := ev.eval(n.Args[0])
 		return Val{T: sx("typeof", x.T), S: sortType}
+	case "implements":
+		x := ev.eval(n.Args[0])
+		ty := ex.resolveType(n.Args[1].String(), ev.pkg)
+		pred := c.implPred(ty)
+		return Val{T: smtAnd(smtNot(sx("=", x.T, "iface_nil")), sx(pred, sx("typeof", x.T))), S: sortBool, Ty: tb}
 	case "typeid":
 		// typeid(T): run-time type constant of a Go type written as an identifier / selector
 		ty := ex.resolveType(n.Args[0].String(), ev.pkg)
